@@ -658,156 +658,10 @@ func colCheckRule(c *Ctx, rule string) {
 
 func init() {
 	addRule("C09", "C09.chainop — the loop that collects the operands of an AND / OR node continues on exactly one operator token kind (one constant, or the builder's own operator parameter): a chain that mixes '&' and '|' is not a sentence of the grammar and must not be folded into one node.",
-		func(c *Ctx) { chainOpRule(c, "C09.chainop") })
+		func(c *Ctx) { chainLoopRule(c, "C09.chainop") })
 }
 
-// chainOpRule (a refutation: loops whose condition it cannot read are skipped). Builders are the parser functions that
-// allocate the And / Or oneof wrappers. In each, a loop whose header tests the kind of the next token — `kind == K`, or
-// a module predicate of the kind — is the operand loop; the set of kinds on which it continues is computed by
-// evaluating the test for every constant of the kind type.
-func chainOpRule(c *Ctx, rule string) {
-	ps := c.a.PS
-	if ps == nil || ps.KindT == nil {
-		return
-	}
-	kindNamed, _ := ps.KindT.(*types.Named)
-	if kindNamed == nil {
-		return
-	}
-	// all constants of the kind type
-	var kinds []int64
-	if pkg := c.w.SSA[pkgParser]; pkg != nil {
-		for _, m := range pkg.Members {
-			if nc, ok := m.(*ssa.NamedConst); ok && types.Identical(nc.Type(), ps.KindT) {
-				if v, ok := constInt(nc.Value); ok {
-					kinds = append(kinds, v)
-				}
-			}
-		}
-	}
-	if len(kinds) < 2 {
-		return
-	}
-	andW, orW := c.w.namedType(pkgProto, "Query_Expression_And_"), c.w.namedType(pkgProto, "Query_Expression_Or_")
-	n := 0
-	for _, fn := range c.w.ModFuncs {
-		if c.w.pkgPathOf(fn) != pkgParser || fn.Blocks == nil {
-			continue
-		}
-		builds := false
-		allInstrs(fn, func(i ssa.Instruction) {
-			if al, ok := i.(*ssa.Alloc); ok {
-				if nt := namedOf(al.Type().Underlying().(*types.Pointer).Elem()); nt != nil && (nt == andW || nt == orW) {
-					builds = true
-				}
-			}
-		})
-		if !builds {
-			continue
-		}
-		for k, l := range loopsOf(fn) {
-			iff, ok := l.header.Instrs[len(l.header.Instrs)-1].(*ssa.If)
-			if !ok {
-				continue
-			}
-			// continue-edge polarity: the successor inside the loop
-			contOnTrue := l.blocks[l.header.Succs[0]]
-			cond := iff.Cond
-			neg := false
-			for {
-				if u, ok := cond.(*ssa.UnOp); ok && u.Op == token.NOT {
-					cond, neg = u.X, !neg
-					continue
-				}
-				break
-			}
-			accepted := -1 // number of constants on which the loop continues; -2 = the builder's own parameter
-			switch x := cond.(type) {
-			case *ssa.BinOp:
-				if x.Op != token.EQL && x.Op != token.NEQ {
-					continue
-				}
-				var other ssa.Value
-				switch {
-				case types.Identical(x.X.Type(), ps.KindT) && types.Identical(x.Y.Type(), ps.KindT):
-					other = x.Y
-					if _, isK := x.X.(*ssa.Const); isK {
-						other = x.X
-					}
-				default:
-					continue
-				}
-				eq := x.Op == token.EQL
-				if neg {
-					eq = !eq
-				}
-				if !contOnTrue {
-					eq = !eq
-				}
-				_, isConst := other.(*ssa.Const)
-				_, isParam := other.(*ssa.Parameter)
-				switch {
-				case eq && isConst:
-					accepted = 1
-				case eq && isParam:
-					accepted = -2
-				case !eq && (isConst || isParam):
-					accepted = len(kinds) - 1 // continues on everything except one kind
-				default:
-					continue
-				}
-			case *ssa.Call:
-				g := calleeFunc(&x.Call)
-				if g == nil || !c.w.inModule(g) || g.Blocks == nil {
-					continue
-				}
-				pi := -1
-				for k2, a := range x.Call.Args {
-					if types.Identical(a.Type(), ps.KindT) && k2 < len(g.Params) {
-						pi = k2
-					}
-				}
-				if pi < 0 {
-					continue
-				}
-				cnt, okAll := 0, true
-				for _, kv := range kinds {
-					r, ok := evalRunePred(g, g.Params[pi], kv)
-					if !ok {
-						okAll = false
-						break
-					}
-					if neg {
-						r = !r
-					}
-					if !contOnTrue {
-						r = !r
-					}
-					if r {
-						cnt++
-					}
-				}
-				if !okAll {
-					continue
-				}
-				accepted = cnt
-			default:
-				continue
-			}
-			n++
-			key := fmt.Sprintf("%s: operand loop#%d", safeFname(fn), k+1)
-			switch {
-			case accepted == 1 || accepted == -2:
-				c.r.ok(rule, key, "the operand loop continues on one operator kind", c.w.ipos(iff))
-			default:
-				c.r.bad(rule, key, fmt.Sprintf("the loop that collects the operands of an AND/OR node continues on %d different token kinds: a chain mixing '&' and '|' (not a sentence of the grammar) is folded into a single node instead of being rejected", accepted), []string{c.w.ipos(iff)})
-			}
-		}
-	}
-	if n == 0 {
-		c.r.ok(rule, "parser", "no operand loop with a readable operator test (refutation rule: nothing to report)")
-	}
-}
+// chainLoopRule: see rules_r8.go (round 8 rewrite of the round-5 refutation rule).
 
 func init() {
 	addRule("C12", "C12.fieldorder — a group's values reach the row in the group's own field order: a ResultField value is appended, or stored at the very index it was read from, never at a position derived from its column name (repeated group-by columns share a name).",
